@@ -333,6 +333,10 @@ func (g *progGen) node(depth int) string {
 			call += "|" + pick(g.t, "cf", []string{"add:name", "add:html", "default:name", "cut:name", "center:20|add:title", "upper"})
 		}
 		call += " }}"
+		if g.chance(3, "callplus") {
+			// an operator that mixes markup of the template with caller data gives caller data
+			call += "{{ " + m + "(" + g.atom() + ") + " + pick(g.t, "cp", []string{"name", "html", "title"}) + " }}{{ " + pick(g.t, "cp2", []string{"name", "html"}) + " + " + m + "(1) }}"
+		}
 		if g.chance(4, "setcall") {
 			g.n++
 			v := fmt.Sprintf("mr%d", g.n)
@@ -525,7 +529,7 @@ func genProgramWith(t *rapid.T, o progOpts, extraNames []string) *Program {
 	if o.inherit && drawInt(t, 0, 3, "inh") == 0 {
 		// whitespace next to the block tags, so that TrimBlocks / LStripBlocks matter in the parent too
 		g.files["/base.tpl"] = "BASE[\n  {% block content %}\n\nbase-content{{ name }}{% for w in words %}{{ w }}{% endfor %}{% endblock %}\n\n|\t{% block side %}\n {{ name }}{% endblock %}\n]" + g.text()
-		over := "{% block content %}" + root + "{% if flag %}{{ block.Super }}{% else %}{{ block.Super|add:name }}{% endif %}{% endblock %}"
+		over := "{% block content %}" + root + "{% if flag %}{{ block.Super }}{% else %}{{ block.Super|add:name }}{% endif %}{{ block.Super + name }}{{ html + block.Super }}{% endblock %}"
 		// blocks generated inside root are nested in 'content': fine (fresh names)
 		root = `{% extends "/base.tpl" %}` + over
 	}
@@ -652,6 +656,7 @@ func compileProgram(p *Program, trim, lstrip bool) (*pongo2.TemplateSet, *pongo2
 	set := pongo2.NewSet("prog", ld)
 	set.Options.TrimBlocks = trim
 	set.Options.LStripBlocks = lstrip
+	set.Globals["gonly"] = "only a global" // a global that no context has
 	tpl, err := set.FromFile(p.Entry)
 	return set, tpl, ld, err
 }
